@@ -143,3 +143,54 @@ Theorem C16_node_order_free : forall d co en en' e a b,
                 c16_entry_value co x = c16_entry_value co x').
 Proof. exact c16_node_order_free. Qed.
 Print Assumptions C16_node_order_free.
+
+(* --- for every grid and every leading shape ------------------------------------------------- *)
+
+(* swapping the two faces of every interior row of edge_face_connectivity changes no difference and
+   no gradient, row by row of any leading shape *)
+Theorem C16_swap_all : forall rows ef dist,
+  Forall (fun p => is_fill (fst p) = false) ef ->
+  Forall2 (Forall2 Qeq) (c16_edge_face_diff_nd rows ef) (c16_edge_face_diff_nd rows (map c16_swap ef)) /\
+  Forall2 (Forall2 Qeq) (c16_gradient_nd rows ef dist) (c16_gradient_nd rows (map c16_swap ef) dist).
+Proof. exact c16_swap_all_nd. Qed.
+Print Assumptions C16_swap_all.
+
+(* fields constant along the element dimension: differences (face and node) and gradients vanish on
+   every edge of every grid, for every leading shape *)
+Theorem C16_const_all_shapes : forall rows ef en dist,
+  Forall (fun d => forall i j, (c16_at d i == c16_at d j)%Q) rows ->
+  Forall (Forall (fun v => (v == 0)%Q)) (c16_edge_face_diff_nd rows ef) /\
+  Forall (Forall (fun v => (v == 0)%Q)) (c16_edge_node_diff_nd rows en) /\
+  Forall (Forall (fun v => (v == 0)%Q)) (c16_gradient_nd rows ef dist).
+Proof. exact c16_const_nd. Qed.
+Print Assumptions C16_const_all_shapes.
+
+(* normalised gradient: unit Euclidean norm unless every entry is 0 *)
+Theorem C16_unit_unless_zero : forall g,
+  ~ Forall (fun x => x = 0%R) g -> c16_l2 (c16_normalize g) = 1%R.
+Proof. exact c16_unit_norm_unless_zero. Qed.
+Print Assumptions C16_unit_unless_zero.
+
+(* --- histories ------------------------------------------------------------------------------- *)
+
+(* frame: along any sequence of table reads, difference() and gradient() calls a stored distance
+   table is never changed *)
+Theorem C16_history_frame : forall se sf en ef ops s,
+  (forall t, gs_end s = Some t -> gs_end (fold_left (c16_hstep se sf en ef) ops s) = Some t) /\
+  (forall t, gs_efd s = Some t -> gs_efd (fold_left (c16_hstep se sf en ef) ops s) = Some t).
+Proof. exact c16_history_frame. Qed.
+Print Assumptions C16_history_frame.
+
+(* after any history a table that is present is the kernel's plan for this grid (or the source's
+   own table) *)
+Theorem C16_history_tables : forall se sf en ef ops,
+  c16_tables_right se sf en ef (c16_hrun se sf en ef ops).
+Proof. exact c16_history_tables. Qed.
+Print Assumptions C16_history_tables.
+
+(* two reads anywhere in a history return the same table *)
+Theorem C16_reads_agree : forall se sf en ef ops1 ops2 t1 t2,
+  gs_efd (c16_hrun se sf en ef ops1) = Some t1 ->
+  gs_efd (c16_hrun se sf en ef (ops1 ++ ops2)) = Some t2 -> t1 = t2.
+Proof. exact c16_reads_agree. Qed.
+Print Assumptions C16_reads_agree.
